@@ -9,59 +9,53 @@ namespace Univers.Text.ConanRange
 
 open Univers Univers.Text
 
-/-! ### which errors can escape (C16) -/
+/-! ### declared errors (C16) -/
 
 section errors
 variable {V : Type} (o : ConanOps V)
 
-/-- an error of the version interface: raised by `ConanVersion(text)` or by `upper_bound` -/
+/-- an error of the version interface: raised by `ConanVersion(text)`, or by `upper_bound` on a
+constructed version at one of the two indices the converter uses -/
 def OpsError (e : TErr) : Prop :=
-  (∃ t, o.make t = .error e) ∨ (∃ v i, o.upperBound v i = .error e)
+  (∃ t, o.make t = .error e) ∨
+  (∃ t v, o.make t = .ok v ∧
+    (o.upperBound v (tildeIndex o v) = .error e ∨ o.upperBound v (o.firstNonZero v) = .error e))
 
 theorem splitOperator_error {e : List Char} {err : TErr} (h : splitOperator e = .error err) :
-    err = .IndexError ∧ (e = [] ∨ e = ['>'] ∨ e = ['<']) := by
+    e = [] := by
   unfold splitOperator at h
   split at h
-  · cases h; exact ⟨rfl, .inl rfl⟩
-  · rename_i c rest
-    split at h
-    · rename_i hc
-      split at h
-      · cases h
-        rcases hc with rfl | rfl
-        · exact ⟨rfl, .inr (.inl rfl)⟩
-        · exact ⟨rfl, .inr (.inr rfl)⟩
-      · split at h <;> cases h
-    · repeat' split at h
-      all_goals cases h
+  · rfl
+  · repeat' split at h
+    all_goals cases h
 
 theorem parseExpression_error {e : List Char} {err : TErr} (h : parseExpression o e = .error err) :
-    (err = .IndexError ∧ (e = ['>'] ∨ e = ['<'])) ∨ err = errConan ∨ OpsError o err := by
+    err = errConan ∨ OpsError o err := by
   unfold parseExpression at h
   split at h
   · split at h
-    · rename_i e' hm; cases h; exact .inr (.inr (.inl ⟨_, hm⟩))
+    · rename_i e' hm; cases h; exact .inr (.inl ⟨_, hm⟩)
     · cases h
   · rename_i hne
     split at h
     · rename_i e' hs
-      cases h
-      obtain ⟨rfl, h1 | h1 | h1⟩ := splitOperator_error hs
-      · exact absurd (.inl h1) hne
-      · exact .inl ⟨rfl, .inl h1⟩
-      · exact .inl ⟨rfl, .inr h1⟩
+      exact absurd (.inl (splitOperator_error hs)) hne
     · split at h
-      · cases h; exact .inr (.inl rfl)
+      · cases h; exact .inl rfl
       · split at h
-        · rename_i e' hm; cases h; exact .inr (.inr (.inl ⟨_, hm⟩))
-        · repeat' split at h
-          all_goals first
-            | (rename_i e' hu; cases h; exact .inr (.inr (.inr ⟨_, _, hu⟩)))
-            | cases h
+        · rename_i e' hm; cases h; exact .inr (.inl ⟨_, hm⟩)
+        · rename_i x hm
+          split at h
+          · split at h
+            · rename_i e' hu; cases h; exact .inr (.inr ⟨_, x, hm, .inl hu⟩)
+            · cases h
+          · split at h
+            · rename_i e' hu; cases h; exact .inr (.inr ⟨_, x, hm, .inr hu⟩)
+            · cases h
+          all_goals cases h
 
 theorem condLoop_error (es : List (List Char)) (pre : Bool) {err : TErr}
-    (h : condLoop o es pre = .error err) :
-    err = .IndexError ∨ err = errConan ∨ OpsError o err := by
+    (h : condLoop o es pre = .error err) : err = errConan ∨ OpsError o err := by
   induction es generalizing pre with
   | nil => cases h
   | cons e es ih =>
@@ -70,17 +64,13 @@ theorem condLoop_error (es : List (List Char)) (pre : Bool) {err : TErr}
     split at h
     · rename_i e' hp
       cases h
-      rcases parseExpression_error o hp with ⟨h1, _⟩ | h1 | h1
-      · exact .inl h1
-      · exact .inr (.inl h1)
-      · exact .inr (.inr h1)
+      exact parseExpression_error o hp
     · split at h
       · rename_i e' hl; cases h; exact ih _ hl
       · cases h
 
 theorem condSets_error (pre : Bool) (as : List (List Char)) {err : TErr}
-    (h : condSets o pre as = .error err) :
-    err = .IndexError ∨ err = errConan ∨ OpsError o err := by
+    (h : condSets o pre as = .error err) : err = errConan ∨ OpsError o err := by
   induction as with
   | nil => cases h
   | cons a as ih =>
@@ -101,7 +91,7 @@ theorem splitOn_ne_nil (sep : Char) (s : List Char) : splitOn sep s ≠ [] := by
     · split <;> simp
 
 theorem versionRange_error {s : List Char} {err : TErr} (h : versionRange o s = .error err) :
-    err = .IndexError ∨ err = errConan ∨ OpsError o err := by
+    err = errConan ∨ OpsError o err := by
   unfold versionRange at h
   split at h
   · rename_i hs; exact absurd hs (splitOn_ne_nil _ _)
@@ -120,32 +110,34 @@ theorem toCons_error (cs : List Cond) {err : TErr} (h : toCons o cs = .error err
       · rename_i e' hl; cases h; exact ih hl
       · cases h
 
-/-- **C16 for the Conan converter, what can escape**: `from_native` returns, or raises
-`IndexError`, `ConanException`, or an error of the version class / of `upper_bound`.  Neither
-`IndexError` nor `ConanException` (a direct subclass of `Exception`) is in the `ValueError` family:
-the declared-errors property FAILS for this converter, see the counterexamples. -/
-theorem conan_errors (t : List Char) (err : TErr) (h : fromNative o t = .error err) :
-    err = .IndexError ∨ err = errConan ∨ OpsError o err := by
-  unfold fromNative at h
-  split at h
-  · rename_i e' hv; cases h; exact versionRange_error o hv
-  · exact .inr (.inr (.inl (toCons_error o _ h)))
+/-- **C16 for the Conan converter**: whatever the text, `from_native` returns, or raises
+`ConanException` (the library's declared error for this converter), or an error of the version
+interface.  No `IndexError` escapes from `_parse_expression` any more (`expression[1:2]`). -/
+theorem conan_declared (t : List Char) :
+    (∃ cs, fromNative o t = .ok cs) ∨ fromNative o t = .error errConan ∨
+      ∃ err, fromNative o t = .error err ∧ OpsError o err := by
+  cases h : fromNative o t with
+  | ok cs => exact .inl ⟨cs, rfl⟩
+  | error err =>
+    unfold fromNative at h
+    split at h
+    · rename_i e' hv
+      cases h
+      rcases versionRange_error o hv with rfl | h'
+      · exact .inr (.inl rfl)
+      · exact .inr (.inr ⟨_, rfl, h'⟩)
+    · exact .inr (.inr ⟨_, rfl, .inl (toCons_error o _ h)⟩)
 
-/-- `ConanVersionRange.from_native(">")` → `IndexError` (`expression[1]` on a one-character
-expression), whatever the version class does -/
-theorem conan_declared_counterexample_gt : fromNative o ['>'] = .error .IndexError := rfl
-
-theorem conan_declared_counterexample_lt : fromNative o ['<'] = .error .IndexError := rfl
-
-/-- `from_native(">=")`, `"="`, `"~"`, `"^"` → `ConanException`, which is not a `ValueError` -/
-theorem conan_declared_counterexample_exception :
+/-- `from_native` of `>`, `<`, `>=`, `=`, `~`, `^` (an operator without version) →
+`ConanException`, whatever the version class does -/
+theorem conan_exception_examples :
+    fromNative o ['>'] = .error errConan ∧ fromNative o ['<'] = .error errConan ∧
     fromNative o ['>', '='] = .error errConan ∧ fromNative o ['='] = .error errConan ∧
     fromNative o ['~'] = .error errConan ∧ fromNative o ['^'] = .error errConan ∧
-    declared errConan = false ∧ declared .IndexError = false :=
-  ⟨rfl, rfl, rfl, rfl, rfl, rfl⟩
+    declared errConan = true :=
+  ⟨rfl, rfl, rfl, rfl, rfl, rfl, rfl⟩
 
 end errors
-
 
 /-! ### exactness of one condition (C06 conan part) -/
 
@@ -157,6 +149,20 @@ theorem safeV_cons {v : List Char} (h : safeV v = true) : ∃ d rest, v = d :: r
   | nil => simp [safeV] at h
   | cons d rest => exact ⟨d, rest, rfl⟩
 
+theorem splitOperator_gt {d : Char} (rest : List Char) (hd : d ≠ '=') :
+    splitOperator ('>' :: d :: rest) = .ok (.gt, d :: rest) := by
+  simp only [splitOperator, true_or, if_true]
+  split
+  · rename_i h; cases h; exact absurd rfl hd
+  · rfl
+
+theorem splitOperator_lt {d : Char} (rest : List Char) (hd : d ≠ '=') :
+    splitOperator ('<' :: d :: rest) = .ok (.lt, d :: rest) := by
+  simp only [splitOperator, or_true, if_true]
+  split
+  · rename_i h; cases h; exact absurd rfl hd
+  · rfl
+
 /-- `_parse_expression` on any spelling of a condition yields what the condition states -/
 theorem parseExpression_spelled {e : Expr} {t : List Char} (hs : Expr.Spelled e t)
     (hsafe : e.safe = true) : parseExpression o t = e.conds o := by
@@ -166,7 +172,7 @@ theorem parseExpression_spelled {e : Expr} {t : List Char} (hs : Expr.Spelled e 
     obtain ⟨d, rest, rfl⟩ := safeV_cons hsafe.1
     have hd : d ≠ '=' := by
       intro e; subst e; simp [afterAngleOk] at hv
-    simp only [parseExpression, splitOperator, Expr.conds, hd]
+    simp only [parseExpression, splitOperator_gt rest hd, Expr.conds]
     simp
     cases o.make (d :: rest) <;> rfl
   | lt v hv =>
@@ -174,7 +180,7 @@ theorem parseExpression_spelled {e : Expr} {t : List Char} (hs : Expr.Spelled e 
     obtain ⟨d, rest, rfl⟩ := safeV_cons hsafe.1
     have hd : d ≠ '=' := by
       intro e; subst e; simp [afterAngleOk] at hv
-    simp only [parseExpression, splitOperator, Expr.conds, hd]
+    simp only [parseExpression, splitOperator_lt rest hd, Expr.conds]
     simp
     cases o.make (d :: rest) <;> rfl
   | ge v =>
@@ -575,8 +581,8 @@ theorem conan_caret_exact (v : List Char) (hv : safeV v = true) (hlast : v.getLa
     (by rw [getLast?_cons_of_ne_nil (by simp)]; exact hlast)]
   simp [Expr.conds, hx, hu]
 
-/-- the caret of a version whose items are all zero: `upper_bound(len(main))` raises, and the
-`IndexError` escapes (known defect; `^0`, `^0.0`, `^0.0.0`) -/
+/-- an error of `upper_bound` in the caret branch escapes as it is (with the real class: the
+`ConanException` "Cannot bump … not an int", e.g. `^abc`) -/
 theorem conan_caret_error (v : List Char) (hv : safeV v = true) (hlast : v.getLast? ≠ some '-')
     (x : V) (hx : o.make v = .ok x) (err : TErr)
     (hu : o.upperBound x (o.firstNonZero x) = .error err) :
@@ -764,10 +770,25 @@ theorem conan_tilde_num_one (a : Nat) :
       rw [splitOn_renderNum _ (by simp)]; simp
     simp [numOps, tildeIndex, hi, hlen]
 
-/-- **`^n₀.n₁.…`** with first non-zero item at index `i`: `>=n₀.n₁.… <n₀.….(nᵢ+1)-`
-(`^1.2.3 := >=1.2.3 <2-`, `^0.1.2 := >=0.1.2 <0.2-`, `^0.0.1 := >=0.0.1 <0.0.2-`) -/
+theorem firstNZ_lt (ns : List Nat) (hne : ns ≠ []) : firstNZ ns < ns.length := by
+  have hpos : 0 < ns.length := List.length_pos_iff.mpr hne
+  have hle : ns.findIdx (fun n => n != 0) ≤ ns.length := List.findIdx_le_length
+  simp only [firstNZ]
+  split <;> omega
+
+theorem firstNZ_zeros (ns : List Nat) (hz : ∀ n ∈ ns, n = 0) : firstNZ ns = ns.length - 1 := by
+  have : ns.findIdx (fun n => n != 0) = ns.length := by
+    rw [List.findIdx_eq_length]
+    intro n hn
+    simp [hz n hn]
+  simp [firstNZ, this]
+
+/-- **`^n₀.n₁.…`**: with `i` the index of the first non-zero item, or of the last item when all
+are zero: `>=n₀.n₁.… <n₀.….(nᵢ+1)-`
+(`^1.2.3 := >=1.2.3 <2-`, `^0.1.2 := >=0.1.2 <0.2-`, `^0.0.1 := >=0.0.1 <0.0.2-`,
+`^0.0 := >=0.0 <0.1-`) -/
 theorem conan_caret_num (ns : List Nat) (i : Nat) (hi : i < ns.length)
-    (hfirst : ns.findIdx (fun n => n != 0) = i) :
+    (hfirst : firstNZ ns = i) :
     fromNative numOps ('^' :: renderNum ns) =
       .ok [.mk .ge (renderNum ns), .mk .lt (renderNum (ns.take i ++ [ns[i] + 1]) ++ ['-'])] := by
   have hne : ns ≠ [] := by intro e; subst e; simp at hi
@@ -777,21 +798,17 @@ theorem conan_caret_num (ns : List Nat) (i : Nat) (hi : i < ns.length)
   · rfl
   · simp [numOps, numItems_renderNum ns hne, hfirst, hi]
 
-/-- **`^0`, `^0.0`, `^0.0.0`, …**: all items zero → `IndexError` (known defect) -/
-theorem conan_caret_zero_counterexample (ns : List Nat) (hne : ns ≠ [])
-    (hz : ∀ n ∈ ns, n = 0) : fromNative numOps ('^' :: renderNum ns) = .error .IndexError := by
-  obtain ⟨hs, hl⟩ := safeV_renderNum ns hne
-  apply conan_caret_error numOps _ hs hl (renderNum ns) rfl
-  have : ns.findIdx (fun n => n != 0) = ns.length := by
-    rw [List.findIdx_eq_length]
-    intro n hn
-    simp [hz n hn]
-  simp [numOps, numItems_renderNum ns hne, this]
-
-/-- the witness `^0` itself -/
-theorem conan_declared_counterexample_caret0 :
-    fromNative numOps ['^', '0'] = .error .IndexError :=
-  conan_caret_zero_counterexample [0] (by simp) (by simp)
+/-- **`^0`, `^0.0`, `^0.0.0`, …** (all items zero; an `IndexError` before the fix): the last item is
+bumped: `^0 := >=0 <1-`, `^0.0 := >=0.0 <0.1-`, `^0.0.0 := >=0.0.0 <0.0.1-` -/
+theorem conan_caret_zero_num (ns : List Nat) (hne : ns ≠ []) (hz : ∀ n ∈ ns, n = 0) :
+    fromNative numOps ('^' :: renderNum ns) =
+      .ok [.mk .ge (renderNum ns),
+        .mk .lt (renderNum (ns.take (ns.length - 1) ++ [1]) ++ ['-'])] := by
+  have hlt := firstNZ_lt ns hne
+  have hi : ns.length - 1 < ns.length := by rw [← firstNZ_zeros ns hz]; exact hlt
+  rw [conan_caret_num ns (ns.length - 1) hi (firstNZ_zeros ns hz)]
+  have : ns[ns.length - 1] = 0 := hz _ (List.getElem_mem _)
+  rw [this]
 
 example : fromNative numOps "~1.2.3".toList = .ok [.mk .ge "1.2.3".toList, .mk .lt "1.3-".toList] :=
   conan_tilde_num 1 2 [3]
@@ -835,36 +852,92 @@ def realOps : ConanOps Conan.Raw where
     | .error (.other n) => .error (.other n)
   str := Conan.str
   mainLen v := v.items.length
-  firstNonZero v := v.items.findIdx (fun it => it != .int 0)
+  firstNonZero v :=
+    let i := v.items.findIdx (fun it => it != .int 0)
+    if i = v.items.length then v.items.length - 1 else i
   upperBound v i :=
     match Conan.upperBound v i with
     | .ok u => .ok (Conan.str u)
     | .error .indexError => .error .IndexError
     | .error .conanException => .error errConan
 
-/-- with the real version class the only errors are `IndexError` and `ConanException`
-(`ConanVersion(...)` accepts every text) -/
-theorem conan_errors_real (t : List Char) (err : TErr) (h : fromNative realOps t = .error err) :
-    err = .IndexError ∨ err = errConan := by
-  rcases conan_errors realOps t err h with h' | h' | ⟨v, hv⟩ | ⟨v, i, hv⟩
-  · exact .inl h'
-  · exact .inr h'
-  · simp [realOps, Conan.construct] at hv
-  · simp only [realOps] at hv
-    split at hv
-    · cases hv
-    · cases hv; exact .inl rfl
-    · cases hv; exact .inr rfl
+theorem conan_splitOn_ne_nil (sep : Char) (s : List Char) : Conan.splitOn sep s ≠ [] := by
+  cases s with
+  | nil => simp [Conan.splitOn]
+  | cons c cs =>
+    unfold Conan.splitOn
+    split
+    · simp
+    · split <;> simp
 
-/-- **the two `IndexError` witnesses with the real version class**, and `ConanException` -/
-theorem conan_declared_counterexamples_real :
-    fromNative realOps ">".toList = .error .IndexError ∧
-    fromNative realOps "^0".toList = .error .IndexError ∧
-    fromNative realOps "^0.0.0".toList = .error .IndexError ∧
+/-- a parsed version has at least one item -/
+theorem items_parseFuel_pos (n : Nat) (s : List Char) :
+    0 < (Conan.parseFuel n s).items.length := by
+  have key : ∀ t : List Char, 0 < ((Conan.splitOn '.' t).map Conan.mkItem).length := by
+    intro t
+    rw [List.length_map]
+    exact List.length_pos_iff.mpr (conan_splitOn_ne_nil _ _)
+  cases n with
+  | zero => exact key s
+  | succ n =>
+    unfold Conan.parseFuel
+    split
+    · split <;> exact key _
+    · split <;> exact key _
+
+theorem tildeIndex_lt {V : Type} (o : ConanOps V) (v : V) (h : 0 < o.mainLen v) :
+    tildeIndex o v < o.mainLen v := by
+  unfold tildeIndex
+  by_cases hc : o.mainLen v > 1
+  · rw [if_pos hc]; exact hc
+  · rw [if_neg hc]; exact h
+
+theorem realOps_firstNonZero_lt (v : Conan.Raw) (h : 0 < v.items.length) :
+    realOps.firstNonZero v < v.items.length := by
+  have hle : v.items.findIdx (fun it => it != .int 0) ≤ v.items.length := List.findIdx_le_length
+  simp only [realOps]
+  by_cases hc : v.items.findIdx (fun it => it != .int 0) = v.items.length
+  · rw [if_pos hc]; omega
+  · rw [if_neg hc]; omega
+
+/-- **declared errors with the real version class**: every text gives a result or
+`ConanException` — nothing else (`ConanVersion(...)` accepts every text; the two indices passed to
+`upper_bound` are always inside `main`) -/
+theorem conan_declared_real (t : List Char) :
+    (∃ cs, fromNative realOps t = .ok cs) ∨ fromNative realOps t = .error errConan := by
+  rcases conan_declared realOps t with h | h | ⟨err, herr, hops⟩
+  · exact .inl h
+  · exact .inr h
+  · right
+    rw [herr]
+    rcases hops with ⟨v, hv⟩ | ⟨t', v, hm, hu⟩
+    · simp [realOps, Conan.construct] at hv
+    · have hv : v = Conan.parse (Conan.normalize t') := by
+        simp only [realOps, Conan.construct] at hm
+        cases hm; rfl
+      have hpos : 0 < v.items.length := by rw [hv]; exact items_parseFuel_pos _ _
+      have h1 : tildeIndex realOps v < v.items.length := tildeIndex_lt realOps v hpos
+      have h2 := realOps_firstNonZero_lt v hpos
+      have key : ∀ i, i < v.items.length → ∀ e, realOps.upperBound v i = .error e → e = errConan := by
+        intro i hi e he
+        simp only [realOps, Conan.upperBound, Conan.bumpStr, List.getElem?_eq_getElem hi] at he
+        cases hs : (v.items[i]).succ? with
+        | none => rw [hs] at he; cases he; rfl
+        | some n => rw [hs] at he; cases he
+      rcases hu with hu | hu
+      · rw [key _ h1 _ hu]
+      · rw [key _ h2 _ hu]
+
+/-- the former `IndexError` witnesses with the real version class, and `ConanException` -/
+theorem conan_fixed_examples_real :
+    fromNative realOps ">".toList = .error errConan ∧
+    fromNative realOps "^0".toList = .ok [.mk .ge "0".toList, .mk .lt "1-".toList] ∧
+    fromNative realOps "^0.0".toList = .ok [.mk .ge "0.0".toList, .mk .lt "0.1-".toList] ∧
+    fromNative realOps "^0.0.0".toList = .ok [.mk .ge "0.0.0".toList, .mk .lt "0.0.1-".toList] ∧
     fromNative realOps ">=".toList = .error errConan ∧
     fromNative realOps "~abc".toList = .error errConan := by
   refine ⟨by decide +kernel, by decide +kernel, by decide +kernel, by decide +kernel,
-    by decide +kernel⟩
+    by decide +kernel, by decide +kernel⟩
 
 /-- what the code REALLY produces, with the real version class -/
 theorem conan_examples_real :
@@ -1062,9 +1135,9 @@ theorem mainLen_renderNum (ns : List Nat) (hne : ns ≠ []) :
     realOps.mainLen (Conan.parse (renderNum ns)) = ns.length := by
   simp [realOps, parse_renderNum ns hne, Conan.OV.items]
 
-theorem firstNonZero_renderNum (ns : List Nat) (hne : ns ≠ []) :
-    realOps.firstNonZero (Conan.parse (renderNum ns)) = ns.findIdx (fun n => n != 0) := by
-  simp only [realOps, parse_renderNum ns hne, Conan.OV.items]
+theorem findIdx_items (ns : List Nat) :
+    (ns.map fun n => Conan.Item.int (Int.ofNat n)).findIdx (fun it => it != .int 0) =
+      ns.findIdx (fun n => n != 0) := by
   induction ns with
   | nil => rfl
   | cons n ns ih =>
@@ -1077,10 +1150,11 @@ theorem firstNonZero_renderNum (ns : List Nat) (hne : ns ≠ []) :
           rw [bne_iff_ne]; intro h; cases h
         simp
         omega
-    rw [this]
-    cases ns with
-    | nil => rfl
-    | cons m ms => rw [ih (by simp)]
+    rw [this, ih]
+
+theorem firstNonZero_renderNum (ns : List Nat) (hne : ns ≠ []) :
+    realOps.firstNonZero (Conan.parse (renderNum ns)) = firstNZ ns := by
+  simp only [realOps, parse_renderNum ns hne, Conan.OV.items, findIdx_items, List.length_map, firstNZ]
 
 theorem toCons_realOps_two (c1 c2 : Cmpr) (t1 t2 : List Char) (h1 : ∀ c ∈ t1, numChar c = true)
     (h2 : ∀ c ∈ t2, numChar c = true) :
@@ -1104,9 +1178,10 @@ theorem conan_tilde_real (a b : Nat) (rest : List Nat) :
   · rw [hidx, upperBound_renderNum _ hne]
     simp [numOps, numItems_renderNum _ hne]
 
-/-- **`^n₀.n₁.…` with the real version class** -/
+/-- **`^n₀.n₁.…` with the real version class**; `i` is the index of the first non-zero item, or
+of the last item when all are zero -/
 theorem conan_caret_real (ns : List Nat) (i : Nat) (hi : i < ns.length)
-    (hfirst : ns.findIdx (fun n => n != 0) = i) :
+    (hfirst : firstNZ ns = i) :
     fromNative realOps ('^' :: renderNum ns) =
       .ok [.mk .ge (renderNum ns), .mk .lt (renderNum (ns.take i ++ [ns[i] + 1]) ++ ['-'])] := by
   have hne : ns ≠ [] := by intro e; subst e; simp at hi
@@ -1119,17 +1194,17 @@ theorem conan_caret_real (ns : List Nat) (i : Nat) (hi : i < ns.length)
   · rw [firstNonZero_renderNum _ hne, hfirst, upperBound_renderNum _ hne]
     simp [numOps, numItems_renderNum _ hne, hi]
 
-/-- **`^0`, `^0.0`, … with the real version class**: `IndexError` for every all-zero version -/
+/-- **`^0`, `^0.0`, … with the real version class** (an `IndexError` before the fix): the last
+item is bumped -/
 theorem conan_caret_zero_real (ns : List Nat) (hne : ns ≠ []) (hz : ∀ n ∈ ns, n = 0) :
-    fromNative realOps ('^' :: renderNum ns) = .error .IndexError := by
-  obtain ⟨hs, hl⟩ := safeV_renderNum ns hne
-  apply conan_caret_error realOps _ hs hl _ (make_numChars (renderNum_numChars _))
-  have : ns.findIdx (fun n => n != 0) = ns.length := by
-    rw [List.findIdx_eq_length]
-    intro n hn
-    simp [hz n hn]
-  rw [firstNonZero_renderNum _ hne, this, upperBound_renderNum _ hne]
-  simp [numOps, numItems_renderNum _ hne]
+    fromNative realOps ('^' :: renderNum ns) =
+      .ok [.mk .ge (renderNum ns),
+        .mk .lt (renderNum (ns.take (ns.length - 1) ++ [1]) ++ ['-'])] := by
+  have hlt := firstNZ_lt ns hne
+  have hi : ns.length - 1 < ns.length := by rw [← firstNZ_zeros ns hz]; exact hlt
+  rw [conan_caret_real ns (ns.length - 1) hi (firstNZ_zeros ns hz)]
+  have : ns[ns.length - 1] = 0 := hz _ (List.getElem_mem _)
+  rw [this]
 
 /-- **`~a` (one item) with the real version class**: `>=a <(a+1)-` -/
 theorem conan_tilde_one_real (a : Nat) :
